@@ -1491,7 +1491,8 @@ class FileBuilder:
                 if (os.path.isfile(parent) and
                         self._old_cache.created_norm_cased_file(
                             os.path.normcase(parent)) and
-                        self._backups.back_up_and_remove(parent)):
+                        self._backups.back_up_and_remove_regular_file(
+                            parent)):
                     logger.info(
                         'Moved {:s} to a temporary directory, in order to '
                         'create a directory with that filename'.format(parent))
